@@ -325,6 +325,7 @@ def run(ctx):
     ctx.rule("C03.e", "fill / fill_n coerce the dtype for the weight(s) before the first store, so neither contents nor missed values are truncated", 4)
     from rules import c13
     c13.check_fill_coercion(ctx, "C03.e", m)
+    c13.check_arrays_follow_dtype(ctx, "C03.e", m)    # the coercion converts each store from itself (errors2 stay the squared weights)
     # polarity / axis of the ND row mask
     pol = None
     for n in ast.walk(fnn.node):
